@@ -622,7 +622,10 @@ def reg_case(draw, shard, tier):
                             orientation=d.pick(None, "QSW", "TNW"), frame=d.pick("EME2000", "EME2000", "MOD", "TOD", "MOD", "EME2000", "TOD", "GCRF"),
                             parent=d.pick("EME2000", "EME2000", "MOD", "TOD"),
                             a=d.u(6.8e6, 4.3e7), e=d.u(0.0, 0.3), i=d.u(0.05, 3.0), raan=d.u(0, 6.2), argp=d.u(0, 6.2),
-                            nu=d.u(0, 6.2)))
+                            nu=d.u(0, 6.2),
+                            # one in five: an orbit about another body, its local orbital frame declared with that
+                            # body's frame as parent (probed at the orbit's own epoch)
+                            about=d.pick(None, None, None, None, "Moon", "Sun")))
         elif kind == "attached":
             # a frame hanging off a frame generated earlier in the history (a station by preference):
             # the reference is a state vector / orbit EXPRESSED IN that frame, as a radar would give it
@@ -882,6 +885,16 @@ def check_registrations(case):
             mu = 3.986004418e14
             rv = tb.kep2cart(op["a"], op["e"], op["i"], op["raan"], op["argp"], op["nu"], mu)
             off = op.get("epoch_off", 0.0)
+            if op.get("about"):
+                if op["about"] not in _proc["bodies"]:
+                    solarsystem.get_frame(op["about"])       # (a second call would re-register the name)
+                    _proc["bodies"].add(op["about"])
+                op = dict(op, frame=op["about"], parent=op["about"], epoch_off=0.0)
+                off = 0.0
+                # an orbit of the same shape about that body, sized for it
+                mu_b = float(frames.get_frame(op["about"]).center.body.mu)
+                rv = tb.kep2cart(op["a"] * (0.3 if op["about"] == "Moon" else 5000.0), op["e"], op["i"], op["raan"], op["argp"],
+                                 op["nu"], mu_b)
             # the reference orbit is dated `off` seconds BEFORE the probe (0 = the probe is exactly at its epoch)
             orb = Orbit(rv.tolist(), date - __import__("datetime").timedelta(seconds=off) if off else date, "cartesian",
                         op["frame"], "Kepler")
